@@ -276,3 +276,13 @@ Proof. apply prefix_some. Qed.
 Theorem crash_histories_thm w dyn ops :
   no_code_twice (s_store (run_crashy w (init_state dyn) 0 ops)).
 Proof. apply (crash_all_histories w dyn ops). Qed.
+
+(* faults and crashes together *)
+Theorem fault_crash_prefix_safe_thm w n now o plan k st : fresh n st -> gcodes_old n st -> no_code_twice st ->
+  no_code_twice (fst (fst (run_fault_prefix_log plan 0 k (handler w n now o) st))).
+Proof.
+  intros F G N. apply (fault_prefix_cinv n plan (handler w n now o) 0%nat k st); [apply handler_safe; auto; split; auto|split; auto].
+Qed.
+Theorem faulty_histories_thm w dyn ops :
+  no_code_twice (s_store (run_faulty w (init_state dyn) 0 ops)).
+Proof. apply (faulty_all_histories w dyn ops). Qed.
